@@ -6,7 +6,7 @@ The in-place updates `L[i] := L[L[i]]` never change the weakly connected compone
 `i ↦ L[i]`; and a pointer graph at a fixed point (`L[L[i]] = L[i]` for all `i`) has exactly one label per
 component.  So whenever the `while` loop stops, two rows carry the same label exactly when they are weakly
 connected in the table the loop started from.  (That the loop stops is proved for every forest in
-`Proofs/DsuForest.lean`; for tables with cycles it is observed, not proved.) -/
+`Proofs/DsuForest.lean` and for EVERY table, cycles included, in `Proofs/DsuTerm.lean`.) -/
 namespace Dsu
 open Relation
 
